@@ -49,7 +49,7 @@ def canon_err(line):
         if m:
             l = ", ".join(sorted(m.group(1).split(", "))) + " appeared in more than one precedence level"
         out.append(l)
-    return (line.split(" ", 1)[0], tuple(sorted(out)))
+    return (line.split(" ", 1)[0], tuple(out))          # in the order reported
 
 
 def run_specs(ctx, texts, cmd="spec"):
